@@ -1,9 +1,87 @@
+import SwayVerif.Model.Lock
 import SwayVerif.Driver.Util
-/-! Driver for C20 (stub — replace `answer`; keep `run`). -/
-namespace SwayVerif.Driver.C20
-open SwayVerif.Driver
+import SwayVerif.Driver.LockCommon
+/-!
+Driver for C20. Case (see `harness/src/bin/sv_c20.rs`):
+  `rt G.. X.. ;; <ok|err|panic|sererr|deerr> eq=<0|1> toml=<same|diff|none> ;; L.. ;; L.. ;; G..`
+where `G` = the original graph, first `L` = real `Lock::from_graph`, second `L` = the records after the
+TOML write + read, last `G` = real `to_graph` of those (or `-`), `eq` = the real `==` up to numbering.
 
-def answer (_line : String) : String := "unimplemented agree=0 prop=0"
+`agree`: model `fromGraph` = first `L` (as a set), TOML layer was the identity, model `toGraph` of the
+re-read records = the real result exactly (node order, edge order), the canonical-form equivalence agrees
+with the real `==`, and (for well-formed graphs) the model's own round trip is an equivalence.
+`prop`: for a well-formed graph the implementation's re-read graph is the original one (`c20PropHolds`
+and the real `==`); nothing is demanded of graphs outside `WFGraph`.
+-/
+namespace SwayVerif.Driver.C20
+open SwayVerif.Lock SwayVerif.Driver SwayVerif.Driver.LockCommon
+
+def splitOn2 (ts : List String) : List (List String) :=
+  let rec go (cur : List String) (acc : List (List String)) : List String → List (List String)
+    | [] => (cur.reverse :: acc).reverse
+    | t :: r => if t = ";;" then go [] (cur.reverse :: acc) r else go (t :: cur) acc r
+  go [] [] ts
+
+def kvOf (ts : List String) (k : String) : String :=
+  match ts.find? (fun t => t.startsWith (k ++ "=")) with
+  | some t => (t.drop (k.length + 1)).toString
+  | none => "?"
+
+def answer (line : String) : String :=
+  let (c, i) := splitCase line
+  match c with
+  | "rt" :: rest =>
+    match (do let g ← graph; let t ← extTable; pure (g, t) : P _).run rest, splitOn2 i with
+    | some ((g, tbl), []), [hd, l1, l2, g2] =>
+      let ext := extOf tbl
+      let cls := hd.head?.getD "?"
+      let eq := kvOf hd "eq" == "1"
+      let toml := kvOf hd "toml"
+      let wf := WFGraph ext g
+      -- implementation's final result
+      let impl : Option (Res Graph) := match cls with
+        | "ok" => match graph.run g2 with
+          | some (h, []) => some (.ok h)
+          | _ => none
+        | "err" => some .err
+        | "panic" => some .panic
+        | _ => some .err
+      match impl with
+      | none => "bad-impl agree=0 prop=0"
+      | some impl =>
+        -- model of the writer
+        let m1 := fromGraph g
+        let a1 := match records.run l1 with
+          | some (r1, []) => m1.isPerm r1
+          | _ => false
+        -- model of the reader on the records the real TOML layer delivered
+        let (a2, ms) := match records.run l2 with
+          | some (r2, []) =>
+            let m := toGraph ext r2
+            let ms := match m with
+              | .ok h => join ("ok" :: showGraph h)
+              | .err => "err"
+              | .panic => "panic"
+            (ms == join (cls :: (if cls == "ok" then g2 else [])), ms)
+          | _ => (false, "no-records")
+        let equivImpl := match impl with
+          | .ok h => g.equivB h
+          | _ => false
+        -- canonical forms vs the real `==`
+        let a3 := equivImpl == eq
+        -- the theorem's statement, evaluated: the model's own round trip
+        let thm := match toGraph ext m1 with
+          | .ok h => g.equivB h
+          | _ => false
+        let a4 := !wf || thm
+        let agree := a1 && toml == "same" && a2 && a3 && a4
+        let prop := c20PropHolds ext g impl && (!wf || eq)
+        let dis := g.nodes.any (fun p => needsDisambiguation (g.nodes.map (·.name)) p.name)
+        let con := g.edges.any (fun e => e.kind != .library)
+        let ren := g.edges.any (fun e => match g.nodes[e.dst]? with | some d => e.name != d.name | none => false)
+        s!"{ms} agree={b01 agree} prop={b01 prop} wf={b01 wf} cls={cls} eq={b01 eq} thm={b01 thm} a={b01 a1}{b01 (toml == "same")}{b01 a2}{b01 a3}{b01 a4} nodes={sizeClass g.nodes.length} edges={sizeClass g.edges.length} dis={b01 dis} contract={b01 con} renamed={b01 ren}"
+    | _, _ => "bad-case agree=0 prop=0"
+  | _ => "bad-case agree=0 prop=0"
 
 def run : IO Unit := do
   lineLoop (← IO.getStdin) (← IO.getStdout) answer
